@@ -7,7 +7,8 @@ var stores = []string{"tan", "tan-multiplexed", "pebble-plain", "pebble-batched"
 // Register registers the scenario "l0/logstore" and the checks C09 and C10.
 func Register() {
 	runner.RegisterScenario(&runner.Scenario{
-		Name: "l0/logstore",
+		Name:     "l0/logstore",
+		RealTime: true,
 		Real: []string{
 			"internal/tan (regular and multiplexed LogDB, record format, index, manifest/version set, open/recovery)",
 			"internal/logdb ShardedDB (plain and batched entry format, cache, key encoding)",
